@@ -13,9 +13,11 @@ pub trait FromJs: Sized {
     fn from_js(v: JsValue) -> Self;
 }
 
-impl<T: JsCast> IntoJs for T {
+// NOTE: by-value `IntoJs` for wrapper types is implemented per type (by the `js_type!` macro of the
+// js-sys shim and by `#[wasm_bindgen]`) because a blanket impl would overlap with the `&T` impl.
+impl IntoJs for JsValue {
     fn into_js(self) -> JsValue {
-        self.into()
+        self
     }
 }
 impl<T: JsCast> IntoJs for &T {
